@@ -50,7 +50,8 @@ impl<'t, D: Doc> ScanResultInner<'t, D> {
   }
 }
 
-struct Suppressions(HashMap<usize, Suppression>);
+// one line can be governed by two comments: one on the line above and one at the end of the line itself
+struct Suppressions(HashMap<usize, Vec<Suppression>>);
 impl Suppressions {
   fn collect<D: Doc>(&mut self, node: &Node<D>) {
     if !node.kind().contains("comment") || !node.text().contains(IGNORE_TEXT) {
@@ -63,17 +64,14 @@ impl Suppressions {
       true
     };
     let key = if suppress_next_line { line + 1 } else { line };
-    self.0.insert(
-      key,
-      Suppression {
-        suppressed: parse_suppression_set(&node.text()),
-        node_id: node.node_id(),
-      },
-    );
+    self.0.entry(key).or_default().push(Suppression {
+      suppressed: parse_suppression_set(&node.text()),
+      node_id: node.node_id(),
+    });
   }
 
   fn suppression_ids(&self) -> HashSet<usize> {
-    self.0.values().map(|s| s.node_id).collect()
+    self.0.values().flatten().map(|s| s.node_id).collect()
   }
 
   fn check_suppression<D: Doc>(&mut self, node: &Node<D>) -> MaySuppressed {
@@ -93,25 +91,25 @@ struct Suppression {
 }
 
 enum MaySuppressed<'a> {
-  Yes(&'a Suppression),
+  Yes(&'a [Suppression]),
   No,
 }
 
 impl MaySuppressed<'_> {
-  fn suppressed_id(&self, rule_id: &str) -> Option<usize> {
-    let suppression = match self {
-      MaySuppressed::No => return None,
+  /// ids of all the comments that suppress the rule
+  fn suppressed_ids(&self, rule_id: &str) -> Vec<usize> {
+    let suppressions = match self {
+      MaySuppressed::No => return vec![],
       MaySuppressed::Yes(s) => s,
     };
-    if let Some(set) = &suppression.suppressed {
-      if set.contains(rule_id) {
-        Some(suppression.node_id)
-      } else {
-        None
-      }
-    } else {
-      Some(suppression.node_id)
-    }
+    suppressions
+      .iter()
+      .filter(|s| match &s.suppressed {
+        Some(set) => set.contains(rule_id),
+        None => true,
+      })
+      .map(|s| s.node_id)
+      .collect()
   }
 }
 
@@ -192,8 +190,11 @@ impl<'r, L: Language> CombinedScan<'r, L> {
         let Some(ret) = rule.matcher.match_node(node.clone()) else {
           continue;
         };
-        if let Some(id) = suppression.suppressed_id(&rule.id) {
-          suppression_ids.remove(&id);
+        let suppressed_by = suppression.suppressed_ids(&rule.id);
+        if !suppressed_by.is_empty() {
+          for id in suppressed_by {
+            suppression_ids.remove(&id);
+          }
           continue;
         }
         if rule.fix.is_none() || !separate_fix {
